@@ -3,6 +3,7 @@ import ("testing";"fmt";"os";"time";"sort";"strings";"golang.org/x/tools/go/ssa"
 func TestGoFn(t *testing.T){
 	cfg := cfgAMD64
 	if os.Getenv("NOASM")!="" { cfg = cfgNoasm }
+	if a := os.Getenv("ARCH"); a != "" { cfg.GOARCH = a; if a=="386"||a=="arm" { goWordBits = 32 } }
 	p,err := Load(cfg); if err!=nil{t.Fatal(err)}
 	name := os.Getenv("FN"); if name=="" { name = "Compressor.CompressBlock" }
 	fn := p.Func("internal/lz4block", name)
@@ -55,6 +56,7 @@ func TestDec(t *testing.T){
 			for _,c := range a.st.cons { for sy := range m.t { if _,ok := c.t[sy]; ok { fmt.Println("    ",c.Str(g.tab)); break } } }
 		}
 	}
+	if a := os.Getenv("ARCH"); a != "" { archSubst = a; if a=="386"||a=="arm" { goWordBits = 32 } }
 	c := NewCheck("C03","quick")
 	portableDecoderRulesImpl(c, "R03")
 	portableDecoderRulesImpl(c, "R04")
